@@ -166,6 +166,21 @@ type Chain struct {
 	MergeDone bool
 	Problems  []string // producer/zrnt disagreements (go to chaingen.md by hand)
 	Epochs    int
+
+	OpRate       OpRates
+	attGenUpTo   common.Slot
+	depositors   map[common.BLSPubkey]GenVal
+	slashedSet   map[common.ValidatorIndex]bool
+	exitSet      map[common.ValidatorIndex]bool
+	activated    map[common.ValidatorIndex]bool
+	aggDone      map[common.Root]bool
+	lastFin      common.Checkpoint
+	lastJust     common.Checkpoint
+	lastNextSync common.Root
+	leakForks    [5]bool
+	initialVals  int
+	divergences  []string
+	Absent       map[common.ValidatorIndex]bool
 }
 
 // HonestStep remembers one honest `trans` for the corruption and cancellation streams.
